@@ -17,7 +17,14 @@ use std::collections::{BTreeMap, BTreeSet};
 #[derive(Clone, Debug, Serialize, Deserialize, PartialEq)]
 pub enum RunTime {
     Clock { tick_ns: i64 },
-    Explicit { zone_off: i64, zulu: bool, decoy: ClockSpec },
+    Explicit {
+        zone_off: i64,
+        zulu: bool,
+        decoy: ClockSpec,
+        /// relaxed spellings of the instant (see reftime::format_time_spelled)
+        #[serde(default)]
+        spelling: u8,
+    },
 }
 
 #[derive(Clone, Debug, Serialize, Deserialize, PartialEq)]
@@ -29,6 +36,9 @@ pub struct Run {
     #[serde(default)]
     pub io: IoPlan,
     pub via_stdin: bool,
+    /// this run uses another offset string than the scenario's (any class)
+    #[serde(default)]
+    pub offset_override: Option<String>,
 }
 
 #[derive(Clone, Debug, Serialize, Deserialize, PartialEq)]
@@ -37,6 +47,10 @@ pub struct C05Scn {
     /// None = option omitted (documented default +00:00)
     pub offset: Option<String>,
     pub runs: Vec<Run>,
+    /// true: the history is a *library session* (repeated `clean` calls on one thread of one
+    /// process, as a long-running embedding would make them) instead of CLI executions
+    #[serde(default)]
+    pub session: bool,
 }
 
 #[derive(Clone, Copy, Debug, PartialEq)]
@@ -223,6 +237,7 @@ pub fn generate(seed: u64) -> C05Scn {
         tos: &tos,
         names: &names,
         allow_unwrap: false,
+        allow_wrapper_layouts: false,
         allow_inline: true,
         allow_multiline_tag: true,
         allow_other: false,
@@ -282,11 +297,27 @@ pub fn generate(seed: u64) -> C05Scn {
                 zone_off,
                 zulu: rng.chance(1, 2),
                 decoy: ClockSpec { sec: *rng.pick(&[0i64, lo - 5, lo + 5, 4_102_444_800, 253_402_300_799]).max(&0), nsec: rng.range(0, 999_999_999), tick_ns: 0 },
+                spelling: if rng.chance(1, 3) { rng.below(8) as u8 } else { 0 },
             }
         };
-        runs.push(Run { now: t, time, env: env.clone(), io: gen_io(&mut rng), via_stdin: rng.chance(1, 2) });
+        runs.push(Run { now: t, time, env: env.clone(), io: gen_io(&mut rng), via_stdin: rng.chance(1, 2), offset_override: None });
     }
-    C05Scn { doc, offset, runs }
+    // a quarter of the histories are library sessions; there (and sometimes between CLI runs)
+    // the configured offset changes from call to call
+    let session = rng.chance(1, 4);
+    if session || rng.chance(1, 6) {
+        for r in runs.iter_mut() {
+            if rng.chance(1, 2) {
+                r.offset_override = Some(match rng.below(8) {
+                    0 => rng.pick(OFF_INVALID).to_string(),
+                    1 => rng.pick(OFF_GREY).to_string(),
+                    2 => reftime::format_offset(off_secs, rng.chance(1, 2)),
+                    _ => reftime::format_offset(rng.range(-48, 56) * 900, rng.chance(1, 2)),
+                });
+            }
+        }
+    }
+    C05Scn { doc, offset, runs, session }
 }
 
 fn run_exec(scn: &C05Scn, r: &Run, text: &str) -> (Fs, Exec) {
@@ -307,13 +338,13 @@ fn run_exec(scn: &C05Scn, r: &Run, text: &str) -> (Fs, Exec) {
     if d.tl_tag != doc::DEFAULT_TL {
         argv.push(format!("--time-limited-tag-name={}", d.tl_tag));
     }
-    if let Some(o) = &scn.offset {
+    if let Some(o) = r.offset_override.as_ref().or(scn.offset.as_ref()) {
         argv.push(format!("--time-limited-time-offset={}", o));
     }
     let clock = match &r.time {
         RunTime::Clock { tick_ns } => ClockSpec { sec: r.now.0, nsec: r.now.1, tick_ns: *tick_ns },
-        RunTime::Explicit { zone_off, zulu, decoy } => {
-            argv.push(format!("--time-limited-current={}", reftime::format_rfc3339(r.now.0, r.now.1, *zone_off, *zulu)));
+        RunTime::Explicit { zone_off, zulu, decoy, spelling } => {
+            argv.push(format!("--time-limited-current={}", reftime::format_time_spelled(r.now.0, r.now.1, *zone_off, *zulu, *spelling)));
             decoy.clone()
         }
     };
@@ -353,42 +384,86 @@ fn relation(now: (i64, i64), e: i64) -> &'static str {
     }
 }
 
+fn offset_of(scn: &C05Scn, r: &Run) -> String {
+    r.offset_override.clone().or_else(|| scn.offset.clone()).unwrap_or_else(|| "+00:00".to_string())
+}
+
 pub fn run(scn: &C05Scn, stats: &mut RunStats) -> Option<Violation> {
     let text = scn.doc.render();
-    let offset_str = scn.offset.clone().unwrap_or_else(|| "+00:00".to_string());
-    let off_class = classify_offset(&offset_str);
     let elems = with_parents(&scn.doc);
     let fail = |inv: &str, sig: String, detail: String, step: usize| Some(Violation { invariant: inv.to_string(), signature: sig.replace(' ', "_"), detail, step });
 
-    // (envelope first, envelope last, absent set, stdout) per run
-    let mut hist: Vec<((i64, i64), (i64, i64), BTreeSet<u32>, Vec<u8>)> = Vec::new();
+    // library session: all calls are made up front, on one thread, in history order
+    let session_outputs: Option<Vec<Result<String, String>>> = if scn.session {
+        let calls: Vec<SessionCall> = scn
+            .runs
+            .iter()
+            .map(|r| SessionCall { input: SessionInput::Text(text.clone()), offset: offset_of(scn, r), now: r.now, targets: BTreeSet::new() })
+            .collect();
+        let env = scn.runs.first().map(|r| r.env.clone()).unwrap_or_default();
+        stats.bump("library_sessions");
+        Some(library_session(&scn.doc, &env, calls))
+    } else {
+        None
+    };
+
+    // (envelope first, envelope last, absent set, stdout, offset) per run
+    let mut hist: Vec<((i64, i64), (i64, i64), BTreeSet<u32>, Vec<u8>, String)> = Vec::new();
     let mut flipped = false;
     let mut perturbed = false;
     for (k, r) in scn.runs.iter().enumerate() {
-        let (mut fs, ex) = run_exec(scn, r, &text);
-        let out = execute(&mut fs, &ex, crate::cli::run);
-        stats.note(format!("run {} now={:?} argv={:?} env={:?} clock={:?}", k, r.now, ex.argv, ex.env, ex.clock));
-        stats.absorb(&format!("run:{}", if r.via_stdin { "stdin" } else { "file" }), &out, &out.stdout);
-        stats.note(format!("   stdout: {:?}", String::from_utf8_lossy(&out.stdout)));
-        if any_soft_fault(&out) {
-            stats.bump("execs_with_soft_fault");
+        let offset_str = offset_of(scn, r);
+        let off_class = classify_offset(&offset_str);
+        if r.offset_override.is_some() {
+            stats.bump("probe_offset_changes_between_runs");
             perturbed = true;
         }
-        if r.env.contains_key("TZ") {
-            perturbed = true;
-        }
-        match &out.status {
-            Status::Exit(0) => {}
-            other => {
-                if lib_call(&text, &scn.doc, &offset_str, r.now, &BTreeSet::new(), Mode::Clean, false).is_err() {
+        // --- obtain this run's output -------------------------------------------------
+        let (stdout_bytes, clock_first, clock_last): (Vec<u8>, Option<(i64, i64)>, (i64, i64)) = if let Some(outs) = &session_outputs {
+            stats.execs += 1;
+            stats.note(format!("call {} (library session) now={:?} offset={:?}", k, r.now, offset_str));
+            match &outs[k] {
+                Ok(o) => {
+                    fnv(&mut stats.fingerprint, format!("session|{:x}", hash_str(o)).as_bytes());
+                    fnv(&mut stats.log_hash, o.as_bytes());
+                    stats.note(format!("   output: {:?}", o));
+                    perturbed = true;
+                    (o.clone().into_bytes(), None, r.now)
+                }
+                Err(_) => {
                     stats.unevaluable = true;
                     stats.bump("unevaluable_library_panics");
                     return None;
                 }
-                return fail("C05.run_completes", format!("status:{:?}", other).chars().take(50).collect(), format!("run {} ended with {:?}", k, other), k);
             }
-        }
+        } else {
+            let (mut fs, ex) = run_exec(scn, r, &text);
+            let out = execute(&mut fs, &ex, crate::cli::run);
+            stats.note(format!("run {} now={:?} argv={:?} env={:?} clock={:?}", k, r.now, ex.argv, ex.env, ex.clock));
+            stats.absorb(&format!("run:{}", if r.via_stdin { "stdin" } else { "file" }), &out, &out.stdout);
+            stats.note(format!("   stdout: {:?}", String::from_utf8_lossy(&out.stdout)));
+            if any_soft_fault(&out) {
+                stats.bump("execs_with_soft_fault");
+                perturbed = true;
+            }
+            if r.env.contains_key("TZ") {
+                perturbed = true;
+            }
+            match &out.status {
+                Status::Exit(0) => {}
+                other => {
+                    if lib_call(&text, &scn.doc, &offset_str, r.now, &BTreeSet::new(), Mode::Clean, false).is_err() {
+                        stats.unevaluable = true;
+                        stats.bump("unevaluable_library_panics");
+                        return None;
+                    }
+                    return fail("C05.run_completes", format!("status:{:?}", other).chars().take(50).collect(), format!("run {} ended with {:?}", k, other), k);
+                }
+            }
+            (out.stdout.clone(), out.clock.first, out.clock.last)
+        };
         let (first, last) = match &r.time {
+            _ if scn.session => (r.now, r.now),
             RunTime::Explicit { .. } => {
                 stats.bump("decoy_clock_fired");
                 perturbed = true;
@@ -401,10 +476,10 @@ pub fn run(scn: &C05Scn, stats: &mut RunStats) -> Option<Violation> {
             RunTime::Clock { .. } => {
                 stats.bump("clock_tick_per_read_fired");
                 perturbed = true;
-                (out.clock.first.unwrap_or(r.now), out.clock.last)
+                (clock_first.unwrap_or(r.now), clock_last)
             }
         };
-        let stdout = String::from_utf8_lossy(&out.stdout).into_owned();
+        let stdout = String::from_utf8_lossy(&stdout_bytes).into_owned();
         let present: BTreeSet<u32> = scn.doc.surviving_ids(&stdout).into_iter().collect();
         let absent: BTreeSet<u32> = elems.iter().map(|(_, e)| e.id).filter(|id| !present.contains(id)).collect();
 
@@ -470,7 +545,8 @@ pub fn run(scn: &C05Scn, stats: &mut RunStats) -> Option<Violation> {
             }
         }
         // --- history oracles ---------------------------------------------------------
-        if let Some((_, prev_last, prev_absent, prev_stdout)) = hist.last() {
+        if let Some((_, prev_last, prev_absent, prev_stdout, prev_offset)) = hist.last().filter(|h| h.4 == offset_str) {
+            let _ = prev_offset;
             if *prev_last <= first {
                 if !prev_absent.is_subset(&absent) {
                     let back: Vec<u32> = prev_absent.difference(&absent).copied().collect();
@@ -488,7 +564,7 @@ pub fn run(scn: &C05Scn, stats: &mut RunStats) -> Option<Violation> {
             let (pf, pl) = (hist.last().unwrap().0, hist.last().unwrap().1);
             if pf == pl && first == last && pf == first {
                 stats.bump("probe_same_instant_different_environment");
-                if *prev_stdout != out.stdout {
+                if *prev_stdout != stdout_bytes {
                     return fail(
                         "C05.same_instant_same_result",
                         "env-or-spelling-dependence".into(),
@@ -507,7 +583,7 @@ pub fn run(scn: &C05Scn, stats: &mut RunStats) -> Option<Violation> {
                 }
             }
         }
-        hist.push((first, last, absent, out.stdout.clone()));
+        hist.push((first, last, absent, stdout_bytes.clone(), offset_str.clone()));
     }
     if let (Some(a), Some(b)) = (scn.runs.first(), scn.runs.last()) {
         stats.sim_seconds = b.now.0 - a.now.0;
@@ -567,7 +643,7 @@ pub fn shrink_candidates(s: &C05Scn) -> Vec<C05Scn> {
         push(nr);
         if let RunTime::Explicit { decoy, .. } = &r.time {
             let mut nr = r.clone();
-            nr.time = RunTime::Explicit { zone_off: 0, zulu: true, decoy: decoy.clone() };
+            nr.time = RunTime::Explicit { zone_off: 0, zulu: true, decoy: decoy.clone(), spelling: 0 };
             push(nr);
         }
         let mut nr = r.clone();
@@ -590,7 +666,7 @@ pub fn sample(s: &C05Scn) -> serde_json::Value {
             serde_json::json!({"now": [r.now.0, r.now.1], "argv": ex.argv, "env": ex.env, "clock": [ex.clock.sec, ex.clock.nsec, ex.clock.tick_ns], "via_stdin": r.via_stdin, "io_plan": r.io})
         })
         .collect();
-    serde_json::json!({"source": text, "offset": s.offset, "runs": runs})
+    serde_json::json!({"library_session": s.session, "source": text, "offset": s.offset, "runs": runs})
 }
 
 /// The enumerated tables must classify as intended (checked at worker start).
